@@ -280,6 +280,7 @@ func vMakeLife(c *vCase, kind string, port int) *vLife {
 			s := &vAbScript{fpp: 8, bits: 16, nSample: 6, nprod: 2}
 			s.groups = []vAbGroup{{first: 0, nchan: 2, snBase: 100, producer: 0, lost: map[int]bool{}}, {first: 8, nchan: 1, snBase: 5000, producer: 1, lost: map[int]bool{}}}
 			run := &vAbRun{s: s, nextIdx: []int{6, 6}, delivered: make([][]int, 2), calls: make([]int, 2), starts: make([]int, 2), stops: make([]int, 2)}
+			run.extEvery = 4
 			run.backlog = func() int { return len(as.buffersChan) }
 			run.stopDelay = 25 * time.Millisecond
 			as.producers = []PacketProducer{&vAbProducer{run: run, id: 0}, &vAbProducer{run: run, id: 1}}
